@@ -25,6 +25,8 @@ pub enum Ev {
     JobEnd { pool: u32, job: u32, panicked: bool },
     /// a timed wait gave up (fires only when no task can run)
     TimeoutFired { pool: u32 },
+    /// a send_timeout / recv_timeout gave up (fires only when no task can run)
+    ChanTimeout { ch: u32 },
     // ---- harness ----
     /// a client enters an API call
     Call { op: &'static str, a: i64 },
